@@ -248,6 +248,21 @@ func (C14) Gen(r *core.Rng, tier string, emit func(string)) {
 		if i%3 == 0 {
 			emit("showedit " + a.line())
 		}
+		if i%12 == 1 {
+			// degenerate descriptive fields are data like any other: zero bounds / zero center / zoom 0 must come
+			// back from `show` exactly as stored
+			z := a
+			switch (i / 12) % 3 {
+			case 0:
+				z.h.MinLonE7, z.h.MinLatE7, z.h.MaxLonE7, z.h.MaxLatE7 = 0, 0, 0, 0
+			case 1:
+				z.h.CenterLonE7, z.h.CenterLatE7, z.h.CenterZoom = 0, 0, 0
+			default:
+				z.h.MinLonE7, z.h.MinLatE7, z.h.MaxLonE7, z.h.MaxLatE7 = 0, 0, 0, 0
+				z.h.CenterLonE7, z.h.CenterLatE7, z.h.CenterZoom, z.h.MinZoom, z.h.MaxZoom = 0, 0, 0, 0, 0
+			}
+			emit("showedit " + z.line())
+		}
 	}
 	// crash injection: tile section of 32768+1500 bytes (the last io.Copy chunk is small), limits over the whole output
 	a := randC14Arch(core.NewRng(7), 32768+1500)
@@ -285,6 +300,32 @@ func (C14) Gen(r *core.Rng, tier string, emit func(string)) {
 			emit(fmt.Sprintf("editcrash %d %s # -", l, a.line()))
 		}
 	}
+	// an archive without tiles: nothing is written after the new metadata, so a failure inside it has no later
+	// write to be noticed by
+	z := zeroTileArch()
+	zmeta := `{"name":"empty, edited","description":"` + strings.Repeat("still no tiles ", 20) + `"}`
+	if zfull, err := runEdit(z, nil, zmeta); err == nil {
+		step := 5
+		if tier == "thorough" {
+			step = 1
+		}
+		for l := 127; l <= len(zfull)+1; l += step {
+			emit(fmt.Sprintf("editcrash %d %s # %s", l, z.line(), hexs([]byte(zmeta))))
+		}
+		emit(fmt.Sprintf("editcrash %d %s # %s", len(zfull)-1, z.line(), hexs([]byte(zmeta))))
+		emit(fmt.Sprintf("editcrash %d %s # %s", len(zfull), z.line(), hexs([]byte(zmeta))))
+	}
+}
+
+// zeroTileArch: a legal archive without tiles — empty root directory, no leaf directories, no tile data: the
+// metadata is the last thing an edit writes
+func zeroTileArch() c14Arch {
+	h := baseHeader()
+	h.TileType = pmtiles.Mvt
+	h.MinZoom, h.MaxZoom, h.CenterZoom = 0, 0, 0
+	ba := assembleArchive(&archDir{}, tileSet{}, pmtiles.Gzip, h, []byte(`{"name":"empty","description":"`+strings.Repeat("no tiles yet ", 20)+`"}`))
+	hh := ba.header
+	return c14Arch{hh, ba.bytes[hh.RootOffset : hh.RootOffset+hh.RootLength], ba.bytes[hh.MetadataOffset : hh.MetadataOffset+hh.MetadataLength], nil, nil}
 }
 
 func (C14) RunGo(line string) string {
